@@ -196,6 +196,7 @@ Outcome paths(Json const& plan)
     cfg.scan_refused = v.find("_tile") != std::string::npos || v == "rgb8planar";
     // tiff/detail/read.hpp read_palette_image: "User supplied image type must be rgb16_image_t."
     cfg.convert_refused = v.compare(0, 3, "pal") == 0;
+    cfg.stepped_view_refused = cfg.convert_refused; // same check: the destination must be exactly rgb16_view_t
     std::string native;
     for (auto const& x : g_fmt_variants()) if (x.name == v) native = x.native;
     cfg.any_ok = native == "gray8" || native == "gray16" || native == "rgb8" || native == "rgba8" || native == "rgb16";
